@@ -32,9 +32,14 @@ TRUSTED_BASE = [
     "pow2(0)=1, pow2(k+1)=2*pow2(k) by induction; only the listed lemmas are machine-checked",
 ]
 ASSUMPTIONS = [
+    "the reduction iterator (PyramidReductionIterator.__next__/set_data/_ensure_levels) is used through an ASSUMED protocol: "
+    "each position of the enumeration at or below the apex delivered once, children before parents, child_data = the values set for "
+    "the delivered children (default otherwise), result() = the apex's value; its implementation is exercised by the bounded tier only",
     "coverage (every in-scope position is yielded) is not discharged as a VC: it follows from the discharged clauses "
     "length == T(depth-n), in_scope and distinct by the pigeonhole principle over the finite scope; the bounded tier "
     "checks it by enumeration",
 ]
-EXPLANATION = ("Position algebra and the recursive generators are verified against sequence contracts by induction "
-               "(callee contract = induction hypothesis); reduction iterator and counters are bounded so far.")
+EXPLANATION = ("Position algebra; the recursive generators by induction (callee contract = induction hypothesis); the generic "
+               "sub-pyramid enumeration as the embedded full enumeration followed by the apex's ancestors (lemma-backed embedding "
+               "facts); position filter and subpyramid filter composition; TOAST enumeration with its recursive count; the three "
+               "counters against the reduction-iterator protocol (assumed; its implementation is bounded tier).")
